@@ -39,9 +39,24 @@ type AcceptRec struct {
 	Seq      uint64
 	Exporter string
 	Ledger   string
-	IDs      []uint64
-	Acked    bool
+	IDs      []uint64 // the logs of this ledger in the call, in call order (a call can carry one log twice)
+	Refused  []bool   // per position: the exporter refused this item individually (per-item error)
+	Acked    bool            // the call as a whole succeeded (no global error)
 	Epoch    int
+}
+
+// acked: the ids the exporter accepted in this call.
+func (a AcceptRec) acked() []uint64 {
+	if !a.Acked {
+		return nil
+	}
+	var out []uint64
+	for i, id := range a.IDs {
+		if !a.Refused[i] {
+			out = append(out, id)
+		}
+	}
+	return out
 }
 
 type workerWorld struct {
@@ -380,14 +395,26 @@ func (d *recDriver) Accept(ctx context.Context, logs ...drivers.LogWithLedger) (
 		key = fmt.Sprintf("exporter:%s'%d", d.id, i)
 	}
 	w.mu.Unlock()
-	ids := make([]uint64, len(logs))
-	ledgerName := ""
-	for i, l := range logs {
-		ids[i] = *l.ID
-		ledgerName = l.Ledger
+	// one call may carry logs of several ledgers (pipelines that share the exporter share its batcher)
+	var order []string
+	byLedger := map[string][]uint64{}
+	for _, l := range logs {
+		if _, ok := byLedger[l.Ledger]; !ok {
+			order = append(order, l.Ledger)
+		}
+		byLedger[l.Ledger] = append(byLedger[l.Ledger], *l.ID)
 	}
-	rec := AcceptRec{Exporter: d.id, Ledger: ledgerName, IDs: ids, Epoch: d.epoch}
-	flt := w.Yield(Cancellable(WithTask(ctx, key)), "exporter.Accept", fmt.Sprint(ids), FExporterErr, FExporterItemErr, FCrash)
+	note := ""
+	for i, l := range order {
+		if i > 0 {
+			note += " "
+		}
+		if len(order) > 1 {
+			note += l + ":"
+		}
+		note += fmt.Sprint(byLedger[l])
+	}
+	flt := w.Yield(Cancellable(WithTask(ctx, key)), "exporter.Accept", note, FExporterErr, FExporterItemErr, FCrash)
 	if w.epochDead(d.epoch) {
 		return nil, errSessionDead
 	}
@@ -408,10 +435,17 @@ func (d *recDriver) Accept(ctx context.Context, logs ...drivers.LogWithLedger) (
 			errs[flt.Arg%len(logs)] = fmt.Errorf("item refused (injected)")
 		}
 	}
-	rec.Acked = err == nil && errs == nil
-	rec.Seq = w.Event()
+	seq := w.Event()
 	d.ww.mu.Lock()
-	d.ww.accepts = append(d.ww.accepts, rec)
+	for _, l := range order {
+		rec := AcceptRec{Seq: seq, Exporter: d.id, Ledger: l, IDs: byLedger[l], Epoch: d.epoch, Acked: err == nil}
+		for i := range logs {
+			if logs[i].Ledger == l {
+				rec.Refused = append(rec.Refused, i < len(errs) && errs[i] != nil)
+			}
+		}
+		d.ww.accepts = append(d.ww.accepts, rec)
+	}
 	d.ww.mu.Unlock()
 	if errs == nil && err == nil {
 		errs = make([]error, len(logs))
@@ -489,44 +523,49 @@ func (ww *workerWorld) onCrash(r *runner) {
 	ww.manager = ww.build(r)
 }
 
-// delivered returns, per ledger, the set of ids acknowledged since the last completed reset.
-func (ww *workerWorld) ackedSince(seq uint64) map[string]map[uint64]bool {
+// ackedBy returns the ids of a ledger that an exporter acknowledged at or after event seq.
+func (ww *workerWorld) ackedBy(exporter, ledgerName string, seq uint64) map[uint64]bool {
 	ww.mu.Lock()
 	defer ww.mu.Unlock()
-	out := map[string]map[uint64]bool{}
+	out := map[uint64]bool{}
 	for _, a := range ww.accepts {
-		if !a.Acked || a.Seq < seq {
+		if a.Seq < seq || a.Exporter != exporter || a.Ledger != ledgerName {
 			continue
 		}
-		if out[a.Ledger] == nil {
-			out[a.Ledger] = map[uint64]bool{}
-		}
-		for _, id := range a.IDs {
-			out[a.Ledger][id] = true
+		for _, id := range a.acked() {
+			out[id] = true
 		}
 	}
 	return out
 }
 
-func (ww *workerWorld) lastResetSeq() uint64 {
-	ww.mu.Lock()
-	defer ww.mu.Unlock()
-	if len(ww.resets) == 0 {
-		return 0
-	}
-	return ww.resets[len(ww.resets)-1].Seq
+// lastResetSeq: the event number of the last reset of a pipeline ("" = of any pipeline), 0 if none.
+func (ww *workerWorld) lastResetSeq(pipeline string) uint64 {
+	return ww.lastResetBefore(^uint64(0), pipeline)
 }
 
-func (ww *workerWorld) lastResetBefore(event uint64) uint64 {
+func (ww *workerWorld) lastResetBefore(event uint64, pipeline string) uint64 {
 	ww.mu.Lock()
 	defer ww.mu.Unlock()
 	var seq uint64
 	for _, r := range ww.resets {
-		if r.Seq <= event {
+		if r.Seq <= event && (pipeline == "" || r.Pipeline == pipeline) {
 			seq = r.Seq
 		}
 	}
 	return seq
+}
+
+// exporterName resolves the name the recording driver was configured with (AcceptRec.Exporter) from an
+// exporter id, in a snapshot of the committed rows.
+func exporterName(snap map[rowKey]any, id string) string {
+	e, _ := snap[exporterKey(id)].(*ledger.Exporter)
+	if e == nil {
+		return ""
+	}
+	var cfg recConfig
+	_ = json.Unmarshal(e.Config, &cfg)
+	return cfg.Name
 }
 
 // quiescent: every committed log of every ledger with an enabled pipeline has been acknowledged since
@@ -537,7 +576,6 @@ func (ww *workerWorld) quiescent(r *runner) bool {
 
 func (ww *workerWorld) missing(r *runner) []string {
 	snap := r.w.db.CommittedSnapshot()
-	acked := ww.ackedSince(ww.lastResetSeq())
 	var missing []string
 	for k, v := range snap {
 		if k.Table != "pipeline" {
@@ -547,11 +585,13 @@ func (ww *workerWorld) missing(r *runner) []string {
 		if !p.Enabled {
 			continue
 		}
+		x := exporterName(snap, p.ExporterID)
+		acked := ww.ackedBy(x, p.Ledger, ww.lastResetSeq(p.ID))
 		for lk, lv := range snap {
 			if lk.Table == "log" && lk.Ledger == p.Ledger {
 				id := lv.(*LogRow).ID
-				if !acked[p.Ledger][id] {
-					missing = append(missing, fmt.Sprintf("%s:%d", p.Ledger, id))
+				if !acked[id] {
+					missing = append(missing, fmt.Sprintf("%s>%s:%d", p.Ledger, x, id))
 				}
 			}
 		}
@@ -559,8 +599,6 @@ func (ww *workerWorld) missing(r *runner) []string {
 	sort.Strings(missing)
 	return missing
 }
-
-var _ = json.Marshal
 
 // catchUpBudget: simulated time granted, once clients and faults have stopped, for the worker to deliver
 // everything: several full retry cycles of the configured periods (each period may be stretched by 50%
